@@ -2,7 +2,7 @@
 import collections
 import json
 
-from .base import Monitor
+from .base import Monitor, unrank_sequence, sequence_space
 from .motion import mk
 from ..harness import Plugin, DEFAULT_EXT, DEFAULT_AT, region_payload, digest
 from ..gen import gen_program, gen_regions
@@ -156,7 +156,7 @@ def tracking(p):
 
 class C11(Monitor):
     prop = "C11"
-    quick_cases = 1000
+    quick_cases = 2500
     rule = ("random interleavings of OctoPrint events (print started/done/failed/cancelling/cancelled/error, paused, resumed and "
             "unrelated events, file selected), G-code and @-commands through the real queuing hooks, script-hook calls, settings "
             "updates (clear-after-print on/off) and API adds; a 20-line reference state machine predicts the active flag, the hook "
@@ -165,7 +165,37 @@ class C11(Monitor):
     assumptions = ["OctoPrint is replaced at its boundary: real settings object, recording plugin manager / comm / current user"]
 
 
+    # small-scope exhaustive class: every sequence over these 15 steps up to length 3 (quick) / 4 (thorough)
+    LETTERS = [[["event", EV_START]], [["event", "PrintDone"]], [["event", "PrintFailed"]], [["event", "PrintCancelling"]],
+               [["event", "PrintCancelled"]], [["event", "Error"]], [["event", "PrintPaused"]], [["event", "PrintResumed"]],
+               [["event", EV_FILE]],
+               [["g", "G28"], ["g", "G1 X5 Y5 Z0.2 F1200"], ["g", "G1 X15 Y15 E1"], ["g", "M117 x"]],
+               [["at", "ExcludeRegion", "off"]], [["script", "gcode", "afterPrintDone"]],
+               [["settings", "toggle-clear"]], [["api", "addExcludeRegion", dict(type="RectangularRegion", x1=30, y1=30, x2=40, y2=40)]],
+               [["g", "G1 X50 Y50 E2"]]]
+    exhaustive_what = ("small scope: every sequence of up to 3 (quick) / 4 (thorough) steps over {the five print-end events, started, "
+                       "paused, resumed, file selected, a G-code stretch entering a region, a further move, a disable @-command, the "
+                       "afterPrintDone hook, a clear-after-print toggle, an API add}, for both initial values of the setting")
+
     def gen_case(self, rnd, tier, k):
+        if k % 4 != 0:
+            maxlen = 3 if tier == "quick" else 4
+            total = 2 * sequence_space(len(self.LETTERS), maxlen)
+            e = (k - k // 4 - 1) * getattr(self, "nshards", 1) + getattr(self, "shard", 0)
+            if e < total:
+                seq = unrank_sequence(e // 2, len(self.LETTERS), maxlen)
+                clear = bool(e % 2)
+                steps = []
+                cur = clear
+                for l in seq:
+                    for st in self.LETTERS[l]:
+                        if st[0] == "settings":
+                            cur = not cur
+                            steps.append(["settings", dict(clear=cur)])
+                        else:
+                            steps.append([st[0]] + [dict(x) if isinstance(x, dict) else x for x in st[1:]])
+                return dict(settings=dict(clear=clear), regions=[["rect", 10, 10, 20, 20, "r0"]], steps=steps, small=e,
+                            small_total=total)
         settings = rand_settings(rnd)
         regs = gen_regions(rnd, rnd.choice([0, 1, 2]))
         return dict(settings=settings, regions=regs, steps=gen_history(rnd, regs, settings, rnd.randint(4, 25)))
@@ -177,6 +207,10 @@ class C11(Monitor):
         if bad:
             return dict(violations=[dict(kind="monitor-crash", idx=-1, cmd=None, detail="event names differ: %r" % bad, mechanism=None,
                                          monitor_error=True)], stats=stats, sets={})
+        sets = collections.defaultdict(set)
+        if "small" in case:
+            sets["exhaustive_indices"].add(case["small"])
+            stats["exhaustive_of_%d" % case["small_total"]] += 1
         d = Driver(case["settings"])
         p = d.p
         for r in case["regions"]:
@@ -238,7 +272,7 @@ class C11(Monitor):
                 stats["c11_hook_calls_while_active"] += 1
             if v:
                 break
-        return dict(violations=v, nontrivial=(prints >= 2 and len(clears) == 2 and not v), stats=stats, sets={},
+        return dict(violations=v, nontrivial=(prints >= 2 and len(clears) == 2 and not v), stats=stats, sets=sets,
                     sample=dict(settings=dict(clear=case["settings"].get("clear")), steps=case["steps"][:25]))
 
     def thresholds(self, tier):
